@@ -44,6 +44,10 @@ def cases(rng, tier, feats, drv_ok):
     # the same polynomial / transcript opened at all queries but the last one (for the dropped-query forgery below)
     shorter = {i: s[:5] + (s[5][:-1],) + s[6:8] for i, s in enumerate(specs) if len(s[5]) >= 2 and not s[8]}
     built_short = dict(zip(shorter, F.build(feats, list(shorter.values())))) if shorter else {}
+    # ... and at all queries but the last 2 / 3 (a witness that is honest for a PREFIX of the queries)
+    shorter_k = {(i, k): s[:5] + (s[5][:-k],) + s[6:8] for i, s in enumerate(specs) for k in (2, 3) if len(s[5]) > k and not s[8]}
+    built_short_k = dict(zip(shorter_k, F.build(feats, list(shorter_k.values())))) if shorter_k else {}
+    built_short_k.update({(i, 1): v for i, v in built_short.items()})
     out = []
     for si, (s, toks) in enumerate(zip(specs, built)):
         d, c, hi = s[6], s[7], s[8]
@@ -98,6 +102,14 @@ def cases(rng, tier, feats, drv_ok):
             ts = built_short[si]; t = list(toks)
             t[F.VALUES] = F.fmt_list(F.parse_list(ts[F.VALUES]) + [rng.felt()]); t[F.POINTS] = ts[F.POINTS]; t[F.WIT] = ts[F.WIT]
             out.append({'line': F.fri_line(d, c, t), 'kind': 'last-query-dropped', 'expect': 'reject', 'cfg': cfg})
+        # ADAPTIVE: the verifier's own queries and points in full, the values of the last k queries junk, and the witness that is honest for
+        # the first queries only (fewer sibling leaves, authentication nodes recomputed for them): a verifier that derives how many rows to
+        # process from the length of the prover's witness never looks at the trailing queries
+        for k in (1, 2, 3):
+            if (si, k) in built_short_k:
+                ts = built_short_k[(si, k)]; t = list(toks)
+                t[F.VALUES] = F.fmt_list(F.parse_list(ts[F.VALUES]) + [rng.felt() for _ in range(k)]); t[F.WIT] = ts[F.WIT]
+                out.append({'line': F.fri_line(d, c, t), 'kind': f'trailing-{k}-junk,witness-for-prefix', 'expect': 'reject', 'cfg': cfg})
     return out
 
 
